@@ -261,109 +261,7 @@ func runC14(c *core.Ctx) core.Meta {
 	}
 
 	// ---------------- R14.3 counters pair ----------------
-	st3 := c.Rule("R14.3", "outstanding-access counters are incremented only where requests are queued (once per instruction, with exactly the last generated request marked as not coalescable) and decremented only in the return handlers under the last-piece test", 8)
-	incOwners := map[string]bool{"VectorMemoryUnit.executeFlatLoad": true, "VectorMemoryUnit.executeFlatStore": true, "ScalarUnit.executeSMEMLoad": true}
-	decOwners := map[string]bool{"ComputeUnit.handleScalarDataLoadReturn": true, "ComputeUnit.handleVectorDataLoadReturn": true, "ComputeUnit.handleVectorDataStoreRsp": true}
-	pcu.Instrs(func(fn *ssa.Function, in ssa.Instruction) {
-		for _, f := range []string{"OutstandingVectorMemAccess", "OutstandingScalarMemAccess"} {
-			s, ok := storeToField(in, "Wavefront."+f)
-			if !ok {
-				continue
-			}
-			st3.Instances++
-			c.MarkAnalysed(fn)
-			name := core.FuncName(fn)
-			pv := prov.Of(s.Val)
-			switch {
-			case strings.HasSuffix(pv, "."+f+"+1)"):
-				ok := incOwners[name]
-				st3.Ob(ok)
-				if !ok {
-					c.ReportAt("R14.3", fn, in.Pos(), f+"++:site", f+" is incremented in "+name+", not where memory requests of an instruction are queued")
-				}
-			case strings.HasSuffix(pv, "."+f+"-1)"):
-				ok := decOwners[name]
-				st3.Ob(ok)
-				if !ok {
-					c.ReportAt("R14.3", fn, in.Pos(), f+"--:site", f+" is decremented in "+name+", not in a memory return handler")
-					continue
-				}
-				// under the last-piece test
-				g := core.BuildGraph(fn, 1, func(cal *ssa.Function) bool { return cal.Pkg == fn.Pkg && cal.Name() == "isLastRead" })
-				for _, n := range g.Nodes {
-					if n.Instr != in || n.Frame.Parent != nil {
-						continue
-					}
-					okG := g.Guarded(n, AnyCut(boolCut(func(_ *core.Node, v ssa.Value) bool {
-						f := core.LoadedField(v)
-						return f != nil && f.Name() == "CanWaitForCoalesce"
-					}, false), boolCut(func(_ *core.Node, v ssa.Value) bool {
-						// a helper that returns !req.CanWaitForCoalesce
-						call, ok := v.(*ssa.Call)
-						if !ok || call.Call.StaticCallee() == nil {
-							return false
-						}
-						return returnsNotOfField(call.Call.StaticCallee(), "CanWaitForCoalesce")
-					}, true)))
-					st3.Ob(okG)
-					st3.Sample("%s: %s-- under !CanWaitForCoalesce: %v", name, f, okG)
-					if !okG {
-						c.ReportAt("R14.3", fn, in.Pos(), f+"--:last-piece", f+" is decremented for a piece that is not the last one of its instruction: the count reaches zero while accesses are in flight (s_waitcnt / s_endpgm pass too early)")
-					}
-				}
-			default:
-				st3.Ob(false)
-				c.ReportAt("R14.3", fn, in.Pos(), f+":write", f+" is written as "+short(pv)+" (neither +1 nor -1)")
-			}
-		}
-	})
-	// exactly the last generated request is not coalescable
-	for name := range incOwners {
-		fn := c.SSAFunc(cuPkg, name)
-		if fn == nil {
-			c.Report(core.Finding{Rule: "R14.3", Kind: "anchor", Pkg: cuPkg, Func: name, Detail: "anchor", Msg: "request-queuing function not found"})
-			continue
-		}
-		if !strings.Contains(name, "Flat") {
-			continue
-		}
-		st3.Instances++
-		g := core.BuildGraph(fn, 0, nil)
-		ok := false
-		for _, n := range g.Nodes {
-			s, isS := n.Instr.(*ssa.Store)
-			if !isS {
-				continue
-			}
-			f := core.FieldOfAddr(s.Addr)
-			if f == nil || f.Name() != "CanWaitForCoalesce" {
-				continue
-			}
-			if b, isC := core.ConstBool(s.Val); !isC || !b {
-				continue
-			}
-			// guarded by i != len(transactions)-1
-			if g.Guarded(n, CmpCut(func(_ *core.Node, op token.Token, x, y ssa.Value) int {
-				py := prov.Of(y)
-				if strings.Contains(prov.Of(x), "iter(") && strings.HasPrefix(py, "(len(") && strings.HasSuffix(py, ")-1)") {
-					switch op {
-					case token.NEQ, token.LSS:
-						return 1
-					case token.EQL:
-						return -1
-					}
-				}
-				return 0
-			})) {
-				ok = true
-			}
-		}
-		st3.Ob(ok)
-		st3.Sample("%s: every request but the last is marked CanWaitForCoalesce: %v", name, ok)
-		if !ok {
-			c.ReportAt("R14.3", fn, fn.Pos(), "last-piece-marking", "the requests of one instruction are not marked so that exactly the last one triggers the decrement")
-		}
-	}
+	checkOutstandingCounters(c, pcu, prov, "R14.3")
 
 	// ---------------- R14.4 barrier release predicates agree ----------------
 	st4 := c.Rule("R14.4", "the predicates that release a barrier (all wavefronts of the group at the barrier, evaluated when a wavefront arrives and when one ends) accept the same set of wavefront states, which per the property is {at barrier, completed}; the emulator's barrier resolution skips completed wavefronts", 3)
@@ -702,4 +600,118 @@ func returnsNotOfField(fn *ssa.Function, field string) bool {
 		}
 	}
 	return n > 0
+}
+
+// checkOutstandingCounters (R14.3, shared with C02 as R02.5): the per-wavefront
+// counters of outstanding memory instructions are incremented once per
+// instruction where its requests are queued and decremented only for the last
+// returning piece of an instruction.
+func checkOutstandingCounters(c *core.Ctx, pcu *PkgInfo, prov *core.Prov, rule string) {
+	st3 := c.Rule(rule, "outstanding-access counters are incremented only where requests are queued (once per instruction, with exactly the last generated request marked as not coalescable) and every decrement is reached only through the last-piece test of a memory return (in the function itself or in each of its callers): a decrement without a matching increment lets s_waitcnt and s_endpgm pass while accesses are in flight", 8)
+	incOwners := map[string]bool{"VectorMemoryUnit.executeFlatLoad": true, "VectorMemoryUnit.executeFlatStore": true, "ScalarUnit.executeSMEMLoad": true}
+	lastPiece := AnyCut(boolCut(func(_ *core.Node, v ssa.Value) bool {
+		f := core.LoadedField(v)
+		return f != nil && f.Name() == "CanWaitForCoalesce"
+	}, false), boolCut(func(_ *core.Node, v ssa.Value) bool {
+		// a helper that returns !req.CanWaitForCoalesce
+		call, ok := v.(*ssa.Call)
+		if !ok || call.Call.StaticCallee() == nil {
+			return false
+		}
+		return returnsNotOfField(call.Call.StaticCallee(), "CanWaitForCoalesce")
+	}, true))
+	isDec := func(in ssa.Instruction) bool {
+		for _, f := range []string{"OutstandingVectorMemAccess", "OutstandingScalarMemAccess"} {
+			if s, ok := storeToField(in, "Wavefront."+f); ok && strings.HasSuffix(prov.Of(s.Val), "."+f+"-1)") {
+				return true
+			}
+		}
+		return false
+	}
+	nDec, unguarded := pcu.GuardedUp(isDec, lastPiece)
+	st3.Instances += nDec
+	bad := map[ssa.Instruction]bool{}
+	for _, u := range unguarded {
+		bad[u.Target.Instr] = true
+		c.ReportAt(rule, u.Top, u.Target.Instr.Pos(), "decrement:last-piece:"+core.FuncName(u.Top), "an outstanding-access counter is decremented (in "+core.FuncName(u.Target.Instr.Parent())+") on a path from "+core.FuncName(u.Top)+" that did not pass the last-piece test of a memory return: the count drops without a matching increment, or for a piece that is not the last one, and s_waitcnt / s_endpgm pass while accesses are in flight")
+	}
+	pcu.Instrs(func(fn *ssa.Function, in ssa.Instruction) {
+		if isDec(in) {
+			st3.Ob(!bad[in])
+			st3.Sample("%s: decrement only under the last-piece test (own body or every caller): %v", core.FuncName(fn), !bad[in])
+		}
+	})
+	pcu.Instrs(func(fn *ssa.Function, in ssa.Instruction) {
+		for _, f := range []string{"OutstandingVectorMemAccess", "OutstandingScalarMemAccess"} {
+			s, ok := storeToField(in, "Wavefront."+f)
+			if !ok {
+				continue
+			}
+			c.MarkAnalysed(fn)
+			name := core.FuncName(fn)
+			pv := prov.Of(s.Val)
+			switch {
+			case strings.HasSuffix(pv, "."+f+"+1)"):
+				st3.Instances++
+				ok := incOwners[name]
+				st3.Ob(ok)
+				if !ok {
+					c.ReportAt(rule, fn, in.Pos(), f+"++:site", f+" is incremented in "+name+", not where memory requests of an instruction are queued")
+				}
+			case strings.HasSuffix(pv, "."+f+"-1)"):
+			default:
+				st3.Instances++
+				st3.Ob(false)
+				c.ReportAt(rule, fn, in.Pos(), f+":write", f+" is written as "+short(pv)+" (neither +1 nor -1)")
+			}
+		}
+	})
+	// exactly the last generated request is not coalescable
+	for name := range incOwners {
+		fn := c.SSAFunc(cuPkg, name)
+		if fn == nil {
+			c.Report(core.Finding{Rule: rule, Kind: "anchor", Pkg: cuPkg, Func: name, Detail: "anchor", Msg: "request-queuing function not found"})
+			continue
+		}
+		if !strings.Contains(name, "Flat") {
+			continue
+		}
+		st3.Instances++
+		g := core.BuildGraph(fn, 0, nil)
+		ok := false
+		for _, n := range g.Nodes {
+			s, isS := n.Instr.(*ssa.Store)
+			if !isS {
+				continue
+			}
+			f := core.FieldOfAddr(s.Addr)
+			if f == nil || f.Name() != "CanWaitForCoalesce" {
+				continue
+			}
+			if b, isC := core.ConstBool(s.Val); !isC || !b {
+				continue
+			}
+			// guarded by i != len(transactions)-1
+			if g.Guarded(n, CmpCut(func(_ *core.Node, op token.Token, x, y ssa.Value) int {
+				py := prov.Of(y)
+				if strings.Contains(prov.Of(x), "iter(") && strings.HasPrefix(py, "(len(") && strings.HasSuffix(py, ")-1)") {
+					switch op {
+					case token.NEQ, token.LSS:
+						return 1
+					case token.EQL:
+						return -1
+					}
+				}
+				return 0
+			})) {
+				ok = true
+			}
+		}
+		st3.Ob(ok)
+		st3.Sample("%s: every request but the last is marked CanWaitForCoalesce: %v", name, ok)
+		if !ok {
+			c.ReportAt(rule, fn, fn.Pos(), "last-piece-marking", "the requests of one instruction are not marked so that exactly the last one triggers the decrement")
+		}
+	}
+
 }
